@@ -35,6 +35,10 @@ def getdim_contract(it, st, bound, site):
     ok = isinstance(rad, RadiiSel)
     st.prove(site + ".pre.radii-are-the-clustering-radii-of-these-atoms",
              z3.And(rad.tok == st.ghost["radii_tok"], rad.indices.s.arr == idx.s.arr) if ok else z3.BoolVal(False))
+    if ok:
+        # radii[k] must be the radius of the k-th atom of `system`: same elements is not enough, the order has to agree
+        from engine.heap import same_order
+        st.prove(site + ".pre.radii-in-the-order-of-the-atoms", same_order(rad.indices, idx))
     st.prove(site + ".pre.return_clusters-false", z3.BoolVal(bound["return_clusters"] is False))
     ttok = thr.tok if isinstance(thr, ThrRef) else z3.IntVal(-7)
     rtok = rad.tok if ok else z3.IntVal(-7)
